@@ -19,6 +19,8 @@ def run(ctx):
     if not mon:
         common.report_disagreements(ctx, "gn", fg, "Kernels.GeneralNames.all_gn_lints", [])
     rheader = gheader + "Definition chkr (c : rview * list Z) : bool := zl_eqb (all_raw_lints (fst c)) (snd c).\n"
+    common.require_outcomes(ctx, "gn", d["cases"].get("gn", []), [{"1", "3", "6"}] * 7 + [{"1", "3", "5"}] + [{"1", "3", "6"}] * 8 + [{"1", "3", "5"}])
+    common.require_outcomes(ctx, "gnraw", d["cases"].get("gnraw", []), [{"1", "3", "6"}] * 6)
     fr = common.corr_stream(ctx, "gnraw", d["cases"].get("gnraw", []), rheader, "chkr",
                             "GeneralNames.all_raw_lints (IA5 content of dNSNames / URIs and empty names, SAN and IAN copies) vs the real lints; members read by the harness's own TLV reader")
     if not mon:
